@@ -426,3 +426,93 @@ func checkC05LateBelow(c *Ctx, n int) {
 		})
 	}
 }
+
+// checkC13CommandCollection: entries for a slice or map option of a COMMAND (section = dotted command
+// path) that already holds something - stored by the program, left by an earlier call, or read from an
+// earlier file: repeated entries accumulate like repeated flags, and like the first flag the first entry
+// of a read REPLACES what the option held.
+func checkC13CommandCollection(c *Ctx, n int) {
+	r := c.Rng
+	for i := 0; i < n; i++ {
+		isMap := r.Intn(3) == 0
+		ty, init := "Lstr", "L[s:"+hx("stored")
+		if isMap {
+			ty, init = "Mstr,str", "M[s:"+hx("k0")+"=s:"+hx("stored")
+		}
+		how := []string{"stored by the program", "left by an earlier call", "read from an earlier file", "nothing held"}[r.Intn(4)]
+		f := FieldDesc{Name: "Tag", Exported: true, Kind: "v", Ty: ty, Tag: `long:"tag"`}
+		if how == "stored by the program" {
+			f.Init = init
+		}
+		depth := 1 + r.Intn(2)
+		sd := &StructDesc{Fields: []FieldDesc{f}}
+		path := []string{}
+		for l := depth; l >= 1; l-- {
+			sd = &StructDesc{Fields: []FieldDesc{{Name: fmt.Sprintf("Cmd%d", l), Exported: true, Kind: "s", Sub: sd, Tag: fmt.Sprintf(`command:"c%d" subcommands-optional:"1"`, l)}}}
+			path = append([]string{fmt.Sprintf("c%d", l)}, path...)
+		}
+		section := strings.Join(path, ".")
+		vals := []string{"a", "b"}
+		if isMap {
+			vals = []string{"k1:a", "k2:b"}
+		}
+		text := "[" + section + "]\ntag = " + vals[0] + "\ntag = " + vals[1] + "\n"
+		argv := append(append([]string{}, path...), "--tag="+vals[0], "--tag="+vals[1])
+		mk := func() *Case {
+			cs := &Case{Name: "app", NsDelim: ".", EnvNsDelim: "_"}
+			cs.Build = []BuildOp{{Kind: "addgroup", Target: 1, Short: "Application Options", Struct: sd},
+				{Kind: "setcmd", Target: 1, Attr: "subopt", Vals: []string{"1"}}}
+			switch how {
+			case "left by an earlier call":
+				pre := "p"
+				if isMap {
+					pre = "k0:p"
+				}
+				cs.Ops = []Op{{Kind: "parse", Args: append(append([]string{}, path...), "--tag="+pre)}}
+			case "read from an earlier file":
+				pre := "p"
+				if isMap {
+					pre = "k0:p"
+				}
+				cs.Ops = []Op{{Kind: "iniparse", Text: "[" + section + "]\ntag = " + pre + "\n"}}
+			}
+			return cs
+		}
+		a, b := mk(), mk()
+		a.Ops = append(a.Ops, Op{Kind: "iniparse", Text: text})
+		b.Ops = append(b.Ops, Op{Kind: "parse", Args: argv})
+		a.Description, b.Description = describeOps(a), describeOps(b)
+		var ra, rb *CaseResult
+		c.RunCases([]*Case{a, b}, func(cr *CaseResult) {
+			if ra == nil {
+				ra = cr
+			} else {
+				rb = cr
+			}
+		})
+		if ra == nil || rb == nil || ra.Real == nil || rb.Real == nil {
+			continue
+		}
+		c.Class(fmt.Sprintf("c13/command-collection: map=%v depth=%d %s", isMap, depth, how))
+		show := func(cr *CaseResult) string {
+			fr, ok := cr.Real.fields["Tag"]
+			if !ok {
+				return "?"
+			}
+			return showVal(ty, fr.val)
+		}
+		va, vb := show(ra), show(rb)
+		want := "L[s:" + hx("a") + ",s:" + hx("b")
+		if isMap {
+			want = "M[s:" + hx("k1") + "=s:" + hx("a") + ",s:" + hx("k2") + "=s:" + hx("b")
+		}
+		ok := va == vb && va == want
+		in := map[string]interface{}{"ini": text, "argv": argv, "the_option_held_something": how, "case_ini": a.Description, "case_cli": b.Description}
+		if !ok {
+			in["case_file_ini"] = c.saveCase(ra)
+			in["case_file_cli"] = c.saveCase(rb)
+		}
+		c.Check("entries-of-a-command's-collection-replace-and-accumulate-like-flags", ok, "C13:command-collection", in,
+			"ini: "+decodeLine(va)+" / cli: "+decodeLine(vb), decodeLine(want)+" both ways")
+	}
+}
